@@ -1129,6 +1129,10 @@ class Lower:
                 v = st[1][1][1][0]
                 if v in env and v not in out:
                     out.append(v)
+            elif st[0] == "semi" and st[1][0] == "mcall" and st[1][2] == "dedup_by" and st[1][1][0] == "path":
+                v = st[1][1][1][0]
+                if v in env and v not in out:
+                    out.append(v)
             elif st[0] == "semi" and st[1][0] == "mcall" and st[1][2] in ("insert", "remove", "retain") and st[1][1][0] == "path":
                 v = st[1][1][1][0]
                 if v in env and env[v][1] == "SET" and v not in out:
@@ -1366,6 +1370,22 @@ class Lower:
                     arms.append("| " + " | ".join(lps) + " => " + bs)
                 rest, rt = self.seq(stmts, i + 1, env, want)
                 return f"(let {val} := (match {sc} with " + " ".join(arms) + f"); {rest})", rt
+            if e[0] == "mcall" and e[2] == "dedup_by" and e[1][0] == "path" and len(e[1][1]) == 1 and e[1][1][0] in env \
+                    and len(e[3]) == 1 and e[3][0][0] == "closure" and len(e[3][0][1]) == 2:
+                # pts.dedup_by(|a, b| dist(a, b) <= tol): drop an element within tol of the last retained one
+                v = e[1][1][0]
+                nm, t = env[v]
+                cl = e[3][0]
+                pa, pb = cl[1]
+                body = cl[2]
+                ok = (body[0] == "bin" and body[1] == "<=" and body[2][0] == "call" and body[2][1][-1] == "dist"
+                      and pa[0] == "pid" and pb[0] == "pid"
+                      and sorted(a[1][0] if a[0] == "path" else "?" for a in body[2][2]) == sorted([pa[1], pb[1]]))
+                if not (ok and isinstance(t, tuple) and t[0] == "list" and t[1] in ("V2", "V3")):
+                    raise Untranslatable("dedup_by with another criterion")
+                tol, tt = self.ex(body[3], env, "S")
+                rest, rt = self.seq(stmts, i + 1, env, want)
+                return f"(let {nm} := (dedupTolPts {tol} {nm}); {rest})", rt
             if e[0] == "mcall" and e[2] in ("insert", "remove", "retain") and e[1][0] == "path" and len(e[1][1]) == 1 \
                     and e[1][1][0] in env and env[e[1][1][0]][1] == "SET":
                 v = e[1][1][0]
